@@ -48,7 +48,14 @@ import (
 
 type Rng struct{ s uint64 }
 
-func NewRng(seed uint64) *Rng { return &Rng{s: seed*0x9E3779B97F4A7C15 + 0x1234567} }
+// NewRng mixes the seed so that consecutive seeds give unrelated streams (a plain s = seed*golden + c would make
+// the stream of seed+1 the stream of seed shifted by one draw).
+func NewRng(seed uint64) *Rng {
+	r := &Rng{s: seed*0x9E3779B97F4A7C15 + 0x1234567}
+	a := r.U64()
+	r.s = a ^ (seed * 0xD6E8FEB86659FD93) ^ 0xA5A5A5A5DEADBEEF
+	return r
+}
 func (r *Rng) U64() uint64 {
 	r.s += 0x9E3779B97F4A7C15
 	z := r.s
